@@ -190,6 +190,14 @@ def diagnostics_receive_chains(c, geomkind='Continuous1D', n=3, N=4):
         for i, nm in enumerate(names):
             c.eq(f'rhat_variable[{i}]_chain0_is_row_{i}', d[nm][0], A[i, :])
             c.eq(f'rhat_variable[{i}]_chain1_is_row_{i}_of_other_chain', d[nm][1], B[i, :])
+        # several comparison chains: variable i receives its own row of EVERY chain, chains in the order given
+        C2 = c.vec('cc', n * N).reshape(n, N); s3 = Samples(C2, geom)
+        s.compute_rhat([s2, s3])
+        d = az.calls[-1][1]
+        for i, nm in enumerate(names):
+            c.holds(f'rhat_three_chains_variable[{i}]_has_one_row_per_chain', np.shape(d[nm]) == (3, N), note=str(np.shape(d[nm])))
+            for k, M in enumerate((A, B, C2)):
+                c.eq(f'rhat_three_chains_variable[{i}]_chain{k}_is_its_row_{i}', np.asarray(d[nm])[k], M[i, :])
     finally:
         if old[0] is None: SM.__dict__.pop('arviz', None)
         else: SM.arviz = old[0]
